@@ -11,6 +11,10 @@ FIRST_MISSED = {"C08-dot-absent-left", "C12-unsparsify-full-record-passthrough",
                 "C10-mergefields-collapse-percentile-reuse", "C10-stats1-mode-running-winner", "C11-grep-flatten-inplace",
                 "C12-nest-explode-empty-value", "C12-subs-regex-alternation",
                 "C18-dkvp-ips-regex-empty-pair", "C18-strmatchx-first-match-optional-group"}
+NOT_EVALUATED_FIRST = {"C02-ps-alias-output-side", "C02-unflatten-fastpath-empty-collections", "C04-csvlite-schema-reset-batch-edge",
+                       "C04-rename-stale-index", "C13-right-default-from-left", "C14-emit-multi-names", "C14-formulti-break",
+                       "C15-capitalize-first-byte", "C15-ll-length-modifier-order", "C16-strftime-neg-fraction", "C16-verb-int-nanos-path",
+                       "C20-dump-redirect-mode", "C20-split-group-name-cache"}
 rows = []
 for d in sorted(os.listdir(S)):
     p = os.path.join(S, d)
@@ -28,9 +32,9 @@ for d in sorted(os.listdir(S)):
         if s not in labels:
             labels.append(s)
     now = "**reported**: " + "; ".join(labels[:2]) if rc == "1" and labels else ("missed (exit %s)" % rc)
-    rows.append("| %s | %s | %s | %s |" % (d, summ.replace("|", "\\|"), "missed" if d in FIRST_MISSED else "reported", now.replace("|", "\\|")))
+    rows.append("| %s | %s | %s | %s |" % (d, summ.replace("|", "\\|"), ("(harness added after reading the change summary)" if d in NOT_EVALUATED_FIRST else ("missed" if d in FIRST_MISSED else "reported")), now.replace("|", "\\|")))
 print("| seeded change | what was changed | first pass | now |")
 print("|---|---|---|---|")
 print("\n".join(rows))
 print()
-print("%d changes; first pass %d reported; now %d reported." % (len(rows), sum(1 for r in rows if "| reported |" in r), sum(1 for r in rows if "**reported**" in r)))
+print("%d changes; first pass: %d reported, %d missed, %d not evaluated before strengthening; now %d reported." % (len(rows), sum(1 for r in rows if "| reported |" in r), sum(1 for r in rows if "| missed |" in r), sum(1 for r in rows if "after reading" in r), sum(1 for r in rows if "**reported**" in r)))
